@@ -234,12 +234,7 @@ func c08R3(a *A, r *Roles) {
 			if _, isSlice := st.Val.Type().Underlying().(*types.Slice); !isSlice {
 				return
 			}
-			_, mk := st.Val.(*ssa.MakeSlice)
-			sl, isSl := st.Val.(*ssa.Slice)
-			fresh := mk
-			if isSl {
-				_, fresh = sl.X.(*ssa.Alloc)
-			}
+			fresh := freshSlice(st.Val, 0)
 			a.check(fresh, rule, "ctor-slice@"+name+"."+fieldName(fa), w.posOf(st), "fresh slice", "a delivered container's slice is not freshly allocated")
 		})
 	}
@@ -296,4 +291,46 @@ func c08R3(a *A, r *Roles) {
 		})
 	}
 	a.atLeast(rule, "fresh-per-iteration@", 4)
+}
+
+
+// freshSlice: v is a slice nobody else can hold: make, a slice of a new array, nil, or the result of an in-package function
+// all of whose returns are such (bounded depth).
+func freshSlice(v ssa.Value, depth int) bool {
+	switch x := strip(v).(type) {
+	case *ssa.MakeSlice:
+		return true
+	case *ssa.Slice:
+		al, ok := x.X.(*ssa.Alloc)
+		return ok && al.Heap
+	case *ssa.Const:
+		return x.Value == nil
+	case *ssa.Phi:
+		if depth > 3 {
+			return false
+		}
+		for _, e := range x.Edges {
+			if !freshSlice(e, depth+1) {
+				return false
+			}
+		}
+		return true
+	case *ssa.Call:
+		cal := x.Common().StaticCallee()
+		home := x.Parent()
+		if cal == nil || cal.Blocks == nil || x.Common().IsInvoke() || cal.Pkg == nil || home == nil || cal.Pkg != enclosingPkg(home) || depth > 2 {
+			return false
+		}
+		rets := returnsOf(cal)
+		if len(rets) == 0 {
+			return false
+		}
+		for _, r := range rets {
+			if len(r.Results) != 1 || !freshSlice(r.Results[0], depth+1) {
+				return false
+			}
+		}
+		return true
+	}
+	return false
 }
